@@ -82,7 +82,7 @@ def build_script(cfg):
         tag = 'r%d-%s' % (len(seq), name)
         if text_override is not None:
             w, t = text_override
-        elif cfg.get('esc3') and code[0] in '245' and name != 'banner':
+        elif cfg.get('esc3') and code[0] in '245':
             # enhanced status codes with up to three digits per field (RFC 3463), different for every reply
             w, t = wire(code, tag, nl, '%s.%d.%d' % (code[0], 7 + len(seq), (509, 50, 5, 123)[len(seq) % 4]))
         else:
@@ -239,8 +239,8 @@ def expected_of(script):
         if name.startswith('auth-chal'):
             continue            # consumed inside the AUTH exchange, never handed out
         t = text
-        if not name.startswith('ehlo') and name != 'banner' and code[0] in '245' and ESC3.match(text):
-            t = text            # the server's own enhanced status code is kept
+        if not name.startswith('ehlo') and code[0] in '245' and ESC3.match(text):
+            t = text            # the server's own enhanced status code is kept (in the greeting it is simply part of the text)
         elif not name.startswith('ehlo') and name != 'banner' and code[0] in '245':
             t = '%s.0.0 %s' % (code[0], text)
         elif name == 'banner':
